@@ -18,9 +18,6 @@ Notation arch := Store.arch.
 Notation phstep := (hunk_step str apath_cmp entry e_apath).
 Notation pnlast := (newlast str entry e_apath).
 
-(* the caller's predicate of list / restore / validate: every entry is consumed *)
-Definition skT (e : entry) : bool := true.
-
 (* ------------------------------------------------------------------------- *)
 (** * 1. Pure reading                                                          *)
 (* ------------------------------------------------------------------------- *)
@@ -37,7 +34,7 @@ Section Pure.
 
   (* IndexRead::hunks_available: sub-directories of i/ in number order, in each the hunk
      files in number order *)
-  Definition listed_hunks (a : arch) (n : N) : list N :=
+  Definition hunks_listed (a : arch) (n : N) : list N :=
     flat_map (fun s => hunk_numbers (children_files pre a (DHunkSub n s)))
              (subdir_numbers (children_dirs a (DIndex n))).
 
@@ -74,7 +71,7 @@ Section Pure.
     | HOk =>
         match ls a (DIndex (N.of_nat n)) with
         | RList _ _ =>
-            let hs := listed_hunks a (N.of_nat n) in
+            let hs := hunks_listed a (N.of_nat n) in
             hl_pure a n hs last last acc
               (if numbers_bad hs (tail_count a (N.of_nat n)) then merr + 1 else merr)
         | _ => (last, acc, merr + 1)
@@ -104,7 +101,7 @@ End Pure.
 Section PureValidate.
   Variable pre : bytes -> N.
 
-  Definition band_opens (a : arch) (b : N) : bool :=
+  Definition opens_b (a : arch) (b : N) : bool :=
     match head_status (rd a (PHead b)) with HOk => true | _ => false end.
 
   (* validate_bands *)
@@ -112,7 +109,7 @@ Section PureValidate.
     match ids with
     | [] => (lens, errs)
     | b :: ids' =>
-        if band_opens a b then
+        if opens_b a b then
           match ls pre a (DBand b) with
           | RList _ fs =>
               let errs1 := if existsb (fun p => fpath_eqb (fst p) (PHead b)) fs then errs else errs + 1 in
